@@ -35,7 +35,7 @@ pub fn scenario(tier: &str) -> (Market, Bounds) {
         name: "escrow",
         specs,
         batches,
-        bases: if th { vec!["funded", "tight", "active-1"] } else { vec!["funded", "tight"] },
+        bases: vec!["funded", "tight", "active-1", "ending-1"],
         publishes: if th { 3 } else { 2 },
         withdraws: 2,
         adds: 1,
@@ -46,7 +46,7 @@ pub fn scenario(tier: &str) -> (Market, Bounds) {
         withdraw_callers: vec![Who::A, Who::O1, Who::W1, Who::Z],
         activate_variants: false,
         tick_lookahead: 2,
-        boundaries: vec!["start", "cron", "end"],
+        boundaries: vec!["start", "cron", "end", "late"],
     };
     let b = if th {
         Bounds { max_depth: 7, max_faults: 1, wall_cap_s: 1500.0, ..Default::default() }
